@@ -239,11 +239,16 @@ ROWS = [";", "; ", " ; "]
 
 @st.composite
 def s_s2a(draw):
-    kind = draw(st.sampled_from(["int", "float", "complex", "bits", "int01"]))
+    kind = draw(st.sampled_from(["int", "float", "complex", "bits", "int01", "bigint"]))
     rows = draw(st.sampled_from([1, 1, 2, 3]))
     n = draw(st.integers(1, 6))
     if kind == "int":
         vals = draw(st.lists(st.integers(-10 ** 6, 10 ** 6), min_size=rows * n, max_size=rows * n))
+    elif kind == "bigint":
+        # "any int array": the whole int64 range, dense around 2^53 (where a detour through float64 starts to round) and at both ends
+        big = st.one_of(st.integers(-2 ** 63, 2 ** 63 - 1), st.integers(-40, 40).map(lambda k: 2 ** 53 + k), st.integers(-40, 40).map(lambda k: -2 ** 53 + k),
+                        st.integers(0, 2000).map(lambda k: 2 ** 63 - 1 - k), st.integers(0, 2000).map(lambda k: -2 ** 63 + k), st.integers(54, 62).map(lambda e: 2 ** e + 1))
+        vals = draw(st.lists(big, min_size=rows * n, max_size=rows * n))
     elif kind == "float":
         vals = draw(st.lists(st.floats(-1e6, 1e6, allow_nan=False).map(lambda v: round(v, 6)), min_size=rows * n, max_size=rows * n))
     elif kind == "complex":
@@ -262,7 +267,7 @@ def s_s2a(draw):
 def _render(c):
     kind, rows, n = c["kind"], c["rows"], c["n"]
     vals = c["vals"]
-    if kind in ("int", "int01"):
+    if kind in ("int", "int01", "bigint"):
         toks = ["%d" % v for v in vals]
     elif kind == "float":
         toks = [c["fmt"] % v for v in vals]
@@ -343,6 +348,8 @@ def e_s2a(c):
             pass  # glued digits with a numeric dtype denote one number per row; not part of the statement
         else:
             check(r.shape == shape, "str2array-shape", f"{text!r},{c['dtype']} -> {r.shape} want {shape}")
+            if natural is int and dt is int:
+                check(np.array_equal(r, num), "str2array-int-values", f"{text!r},int -> {r!r}")
             check(np.allclose(r.astype(complex), num.astype(dt).astype(complex), rtol=1e-12, atol=1e-12), "str2array-dtype-values",
                   f"{text!r},{c['dtype']} -> {r!r}")
     return {"nontrivial": rows > 1 or kind == "complex" or dt is not None,
